@@ -17,6 +17,7 @@ both values.
 -/
 import CaddyModel.C19.Lemmas
 import CaddyModel.C19.ClientAuth
+import CaddyModel.C19.Caddyfile
 
 namespace CaddyModel.C19
 
@@ -352,7 +353,7 @@ def specAuth : Option CAConf → AuthType
     | .requireAndVerify => .requireAndVerifyClientCert
     | .other => .noClientCert
     | .empty =>
-      if c.caRaw || c.trustedCACerts.nonEmpty || c.pemFiles.nonEmpty || c.trustedLeaf.nonEmpty
+      if c.caRaw.nonEmpty || c.trustedCACerts.nonEmpty || c.pemFiles.nonEmpty || c.trustedLeaf.nonEmpty
       then .requireAndVerifyClientCert
       else if c.verifiersRaw then .requireAnyClientCert else .noClientCert
 
@@ -401,7 +402,7 @@ theorem verifier_installed_iff (c : CAConf) (b : Built) (hb : provisionPolicyCA 
 
 /-- the block whose `Active()` flips: verifier modules and nothing else -/
 def verifiersOnly (c : CAConf) : Bool :=
-  c.verifiersRaw && !c.caRaw && !c.trustedCACerts.nonEmpty && !c.pemFiles.nonEmpty && !c.trustedLeaf.nonEmpty &&
+  c.verifiersRaw && !c.caRaw.nonEmpty && !c.trustedCACerts.nonEmpty && !c.pemFiles.nonEmpty && !c.trustedLeaf.nonEmpty &&
     c.mode == .empty
 
 /-- FULL STATEMENT — "`Active()` answers the same after provisioning as before" — is FALSE
@@ -436,17 +437,158 @@ theorem strict_default_iff_some_policy_requests_cert (pcs : List (Policy × Opti
     obtain ⟨h1, h2⟩ := hwf x hx
     exact Or.inr ⟨rfl, x.1, List.mem_map.mpr ⟨x, hx, rfl⟩, h1 ▸ (active_iff_requests_client_cert _ _ h2).mpr ha⟩
 
+/-! ## F. Caddyfile glue: `tls { client_auth … }` and `servers { strict_sni_host … }` -/
+
+/-- the core of the no-bypass argument, for any way strict checking came to be in effect -/
+theorem strict_binds_policy (ps : List Policy) (sites : List Bytes) (sni host site : Bytes)
+    (v : Nat → Bool) (k : Nat)
+    (hsni : noBrackets sni = true) (hascii : isAscii sni = true)
+    (hsites : ∀ s ∈ sites, isAscii s = true)
+    (hs : serve true sites (some sni) host = .handler (some k))
+    (hk : sites[k]? = some site) :
+    choose false ps ⟨sni, v⟩ = choose false ps ⟨site, v⟩ := by
+  obtain ⟨site', h1, h2⟩ := strict_binds_policy_name_partial sites sni host k hsni hascii hsites hs
+  rw [hk] at h1; cases h1
+  rw [first_match_dead_index, first_match_dead_index]
+  exact firstMatchFrom_congr ⟨sni, v⟩ ⟨site, v⟩ ps 0 h2 rfl
+
+/-- something has been configured in the parser state -/
+def CFState.nonTrivial (s : CFState) : Bool :=
+  s.mode != .empty || s.caRaw.nonEmpty || s.tca.nonEmpty || s.leaf.nonEmpty || s.ver
+
+theorem Listed.add_nonEmpty (a : Listed) (ok : Bool) : (a.add ok).nonEmpty = true := by
+  cases a <;> cases ok <;> rfl
+
+theorem parseSub_nonTrivial (s s' : CFState) (x : Sub) (hx : ∀ m, x = .mode m → m ≠ .empty)
+    (h : parseSub s x = some s') : s'.nonTrivial = true := by
+  cases x with
+  | mode m =>
+    simp only [parseSub, Option.some.injEq] at h; subst h
+    have := hx m rfl
+    cases m <;> simp_all [CFState.nonTrivial]
+  | trustedCACert ok =>
+    simp only [parseSub] at h
+    split at h
+    · cases h
+    · cases h; simp [CFState.nonTrivial, Listed.add_nonEmpty]
+  | trustedCACertFile r =>
+    simp only [parseSub] at h
+    split at h
+    · cases h
+    · split at h
+      · cases h
+      · cases h; simp [CFState.nonTrivial, Listed.add_nonEmpty]
+  | trustedLeafCert ok =>
+    simp only [parseSub, Option.some.injEq] at h; subst h
+    simp [CFState.nonTrivial, Listed.add_nonEmpty]
+  | trustedLeafCertFile r =>
+    simp only [parseSub] at h
+    split at h
+    · cases h
+    · cases h; simp [CFState.nonTrivial, Listed.add_nonEmpty]
+  | trustPool ok =>
+    simp only [parseSub] at h
+    split at h
+    · cases h
+    · cases h; cases ok <;> simp [CFState.nonTrivial, Listed.nonEmpty]
+  | verifier =>
+    simp only [parseSub, Option.some.injEq] at h; subst h
+    simp [CFState.nonTrivial]
+
+theorem parseSub_keeps_nonTrivial (s s' : CFState) (x : Sub) (hx : ∀ m, x = .mode m → m ≠ .empty)
+    (_hs : s.nonTrivial = true) (h : parseSub s x = some s') : s'.nonTrivial = true :=
+  parseSub_nonTrivial s s' x hx h
+
+theorem parseSubs_nonTrivial (s s' : CFState) (subs : List Sub)
+    (hx : ∀ m, Sub.mode m ∈ subs → m ≠ .empty)
+    (hne : subs ≠ [] ∨ s.nonTrivial = true) (h : parseSubs s subs = some s') : s'.nonTrivial = true := by
+  induction subs generalizing s with
+  | nil =>
+    simp only [parseSubs, Option.some.injEq] at h; subst h
+    rcases hne with h | h
+    · exact absurd rfl h
+    · exact h
+  | cons x xs ih =>
+    unfold parseSubs at h
+    split at h
+    · cases h
+    · rename_i s1 hs1
+      have h1 := parseSub_nonTrivial s s1 x (fun m e => hx m (e ▸ List.mem_cons_self ..)) hs1
+      exact ih s1 (fun m hm => hx m (List.mem_cons_of_mem _ hm)) (Or.inr h1) h
+
+/-- **a non-empty `client_auth { … }` block that the Caddyfile parser accepts is `Active()`**, so the
+    server it lands on gets strict SNI-Host by default (whatever subdirectives, in whatever order) -/
+theorem caddyfile_block_active (subs : List Sub) (c : CAConf)
+    (hx : ∀ m, Sub.mode m ∈ subs → m ≠ .empty) (hne : subs ≠ [])
+    (h : parseClientAuth subs = some c) : activeBefore (some c) = true := by
+  unfold parseClientAuth at h
+  split at h
+  · cases h
+  · rename_i s hs
+    have hnt := parseSubs_nonTrivial _ s subs hx (Or.inl hne) hs
+    unfold CFState.nonTrivial at hnt
+    split at h
+    · rename_i htca
+      cases h
+      simp [activeBefore, CAConf.init, CAState.active, htca]
+    · rename_i htca
+      cases h
+      simp only [Bool.not_eq_true] at htca
+      simp only [htca, Bool.or_false] at hnt
+      simp only [activeBefore, CAConf.init, CAState.active, Listed.nonEmpty]
+      cases hm : s.mode <;> cases hc : s.caRaw <;> cases hl : s.leaf <;> cases hv : s.ver <;>
+        simp_all [Listed.nonEmpty]
+
+/-- only `insecure_off` switches the check off; `on` and the bare option switch it on -/
+theorem strict_option_spec (o : StrictOpt) (cfg : Option Bool) (h : strictOption o = some cfg) :
+    (cfg = some false ↔ o = .insecureOff) ∧ (cfg = none ↔ o = .absent) := by
+  cases o <;> simp_all [strictOption] <;> (cases h; simp)
+
+/-- **through the Caddyfile**: a server assembled from site blocks, strict checking not switched
+    off.  If a TLS request (ASCII, bracket-free SNI) is routed to the handler of a site whose
+    `client_auth` block makes its connection policy ask for a client certificate, then the
+    connection's policy is the one first-match gives that site's own name. -/
+theorem caddyfile_client_auth_site_bound (sites : List Site) (cfg : Option Bool) (sni host name : Bytes)
+    (v : Nat → Bool) (k : Nat) (conf : CAConf) (b : Built)
+    (hcfg : cfg ≠ some false)
+    (hk : sites[k]? = some (name, some conf))
+    (hb : provisionPolicyCA (some conf) = some b) (hreq : b.bits.auth ≠ .noClientCert)
+    (hsni : noBrackets sni = true) (hascii : isAscii sni = true)
+    (hnames : ∀ s ∈ sites, isAscii s.1 = true)
+    (hs : serve (effectiveStrict cfg ((adaptPolicies sites).map (·.1))) (sites.map (·.1)) (some sni) host
+            = .handler (some k)) :
+    choose false ((adaptPolicies sites).map (·.1)) ⟨sni, v⟩ =
+      choose false ((adaptPolicies sites).map (·.1)) ⟨name, v⟩ := by
+  have hact : activeBefore (some conf) = true := (active_iff_requests_client_cert _ _ hb).mpr hreq
+  have hmem : (name, some conf) ∈ sites := List.mem_of_getElem? hk
+  have hstrict : effectiveStrict cfg ((adaptPolicies sites).map (·.1)) = true := by
+    cases cfg with
+    | some bb => cases bb with
+      | true => rfl
+      | false => exact absurd rfl hcfg
+    | none =>
+      refine (strict_auto_enabled_iff none _).mpr (Or.inr ⟨rfl, ⟨[.sni [name]], false, activeBefore (some conf)⟩, ?_, hact⟩)
+      refine List.mem_map.mpr ⟨(⟨[.sni [name]], false, activeBefore (some conf)⟩, some conf), ?_, rfl⟩
+      unfold adaptPolicies
+      refine List.mem_append_left _ (List.mem_filterMap.mpr ⟨(name, some conf), hmem, rfl⟩)
+  rw [hstrict] at hs
+  refine strict_binds_policy _ (sites.map (·.1)) sni host name v k hsni hascii ?_ hs ?_
+  · intro s hs'
+    obtain ⟨x, hx, rfl⟩ := List.mem_map.mp hs'
+    exact hnames x hx
+  · simp [List.getElem?_map, hk]
+
 /-! ## non-vacuity: concrete, kernel-evaluated instances of the hypotheses -/
 
 -- client_authentication blocks: verifier only / CA file that fails to load / unknown mode / ca + certs
-example : provisionPolicyCA (some ⟨false, .none, .none, .none, true, .empty⟩) =
+example : provisionPolicyCA (some ⟨.none, .none, .none, .none, true, .empty⟩) =
     some ⟨⟨.requireAnyClientCert, false, true⟩, true, true, false⟩ := by decide
-example : provisionPolicyCA (some ⟨false, .none, .bad, .none, false, .empty⟩) =
+example : provisionPolicyCA (some ⟨.none, .none, .bad, .none, false, .empty⟩) =
     some ⟨⟨.requireAndVerifyClientCert, false, true⟩, true, false, true⟩ := by decide
-example : provisionPolicyCA (some ⟨false, .none, .none, .none, false, .other⟩) = none ∧
-    provisionPolicyCA (some ⟨true, .good, .none, .none, false, .empty⟩) = none := by decide
-example : verifiersOnly ⟨false, .none, .none, .none, true, .empty⟩ = true ∧
-    verifiersOnly ⟨false, .none, .none, .good, true, .empty⟩ = false := by decide
+example : provisionPolicyCA (some ⟨.none, .none, .none, .none, false, .other⟩) = none ∧
+    provisionPolicyCA (some ⟨.good, .good, .none, .none, false, .empty⟩) = none := by decide
+example : verifiersOnly ⟨.none, .none, .none, .none, true, .empty⟩ = true ∧
+    verifiersOnly ⟨.none, .none, .none, .good, true, .empty⟩ = false := by decide
 
 
 /-- names used below -/
